@@ -3,5 +3,5 @@ INIT Init
 NEXT Next
 VIEW View
 CONSTRAINT Bound
-INVARIANTS WellFormed EndsPreserved EndsFromOperands Meaning DegreeBookkeeping IntegralFacts PathsAgree Borrow EmitScript
+INVARIANTS WellFormed EndsPreserved EndsFromOperands Meaning DegreeBookkeeping IntegralFacts PathsAgree Borrow EditFacts EmitScript
 CHECK_DEADLOCK FALSE
